@@ -56,7 +56,7 @@ Print Assumptions C16_terminates_seq.
    first successful one and lies within the budget, exactly k+1 attempts are made and the
    response of attempt k is returned. *)
 Theorem C16_first_success_returned : forall c n ix cl k r,
-  no_crash c n -> on_retry c = true -> eff_idem c cl = true ->
+  no_crash c n -> has_retry c = true -> eff_idem c cl = true ->
   script cl k = Ok r -> (forall j, (j < k)%nat -> is_ok (script cl j) = false) ->
   (k <= budget_of c cl)%nat ->
   nattempts (handle c n ix cl) = S k /\ res (handle c n ix cl) = RResp r.
@@ -76,7 +76,7 @@ Print Assumptions C16_last_attempt_returned.
 
 (* No success within the budget: budget+1 attempts and the LAST error is returned. *)
 Theorem C16_last_error_returned : forall c n ix cl,
-  no_crash c n -> on_retry c = true -> eff_idem c cl = true ->
+  no_crash c n -> has_retry c = true -> eff_idem c cl = true ->
   (forall j, (j <= budget_of c cl)%nat -> is_ok (script cl j) = false) ->
   nattempts (handle c n ix cl) = S (budget_of c cl) /\
   res (handle c n ix cl) = result_of (script cl (budget_of c cl)).
@@ -85,7 +85,7 @@ Print Assumptions C16_last_error_returned.
 
 (* failfast (OnRetry == nil): one attempt, whatever Retry / Idempotent / items say *)
 Theorem C16_failfast_once : forall c n ix cl,
-  on_retry c = false ->
+  has_retry c = false ->
   attempts (handle c n ix cl) = [url (start n ix (it_retried cl))] /\
   (res (handle c n ix cl) = RCrash \/ res (handle c n ix cl) = result_of (script cl 0%nat)).
 Proof. exact handle_failfast_once. Qed.
@@ -108,6 +108,26 @@ Theorem C16_callbacks : forall c n ix cl,
    nfail (fin o) = (nattempts o - if is_resp (res o) then 1 else 0)%nat).
 Proof. exact handle_callbacks. Qed.
 Print Assumptions C16_callbacks.
+
+(* The back-off intervals (WithMinInterval / WithMaxInterval) steer nothing but the sleep:
+   two configs that differ only there produce the same attempts, URLs, result, "retried"
+   item, index and callback counts.  (C16_attempts_le and the other theorems quantify over
+   every cfg, intervals included: OnRetry stores the incremented counter before it clamps.) *)
+Theorem C16_intervals_irrelevant : forall c c' n ix cl,
+  cfg_core c = cfg_core c' -> core_o (handle c n ix cl) = core_o (handle c' n ix cl).
+Proof. exact handle_intervals_irrelevant. Qed.
+Print Assumptions C16_intervals_irrelevant.
+
+(* the interval OnRetry returns: min*retried (failtry) / min*(retried-len(urls)) (failover),
+   clamped to maxInterval; one interval per retry *)
+Theorem C16_interval_clamped : forall c n rd,
+  interval_of c n rd <= max_interval c /\
+  (on_retry c = RFailover -> min_interval c * (rd - n) <= max_interval c ->
+   interval_of c n rd = min_interval c * (rd - n)) /\
+  (on_retry c <> RFailover -> min_interval c * rd <= max_interval c ->
+   interval_of c n rd = min_interval c * rd).
+Proof. exact interval_of_spec. Qed.
+Print Assumptions C16_interval_clamped.
 
 (* ------------------------------------------------------------------ *)
 (* failover: where the attempts go *)
@@ -155,7 +175,7 @@ Print Assumptions C16_urls_always_configured.
    attempts go to servers 0, 0. *)
 Theorem C16_failover_moves_refuted :
   exists (c : cfg) (n : Z) (cs : list call) (o : obs) (j : nat) (u : Z),
-    c = new (failover_config 3 true) /\ 2 <= n /\
+    c = new (failover_config 3 true 0 0) /\ 2 <= n /\
     nth_error (run_calls c n false 0 None cs) 1 = Some o /\
     nth_error (attempts o) j = Some u /\ nth_error (attempts o) (S j) = Some u /\
     is_ok (script (nth 1 cs {| it_idem := None; it_retry := None; it_retried := 0;
@@ -165,7 +185,7 @@ Print Assumptions C16_failover_moves_refuted.
 
 (* ... and it happens for every call that starts while the shared index is n-1 *)
 Theorem C16_failover_moves_refuted_any : forall c n cl,
-  on_failure c = FRotate -> 2 <= n -> on_retry c = true -> eff_idem c cl = true ->
+  on_failure c = FRotate -> 2 <= n -> has_retry c = true -> eff_idem c cl = true ->
   (0 < budget_of c cl)%nat -> is_ok (script cl 0%nat) = false ->
   firstn 2 (attempts (handle c n (n - 1) cl)) = [0; 0].
 Proof. exact failover_moves_refuted_any. Qed.
@@ -282,15 +302,15 @@ Definition mk_call (i : option bool) (r : option Z) (l : list outcome) : call :=
 
 (* failover, 3 servers, retry 3, idempotent: error, panic, success -> servers 0,1,2 *)
 Example failover_error_panic_success :
-  let c := new (failover_config 3 true) in
+  let c := new (failover_config 3 true 0 0) in
   let o := handle c 3 0 (mk_call None None [Err 1; Panic 2; Ok 3; Ok 4]) in
   attempts o = [0; 1; 2] /\ res o = RResp 3 /\ retried (fin o) = 2 /\ index (fin o) = 2 /\
-  no_crash c 3 /\ on_retry c = true /\ on_failure c = FRotate /\ ix_ok 3 0 /\ 0 <> 3 - 1.
+  no_crash c 3 /\ has_retry c = true /\ on_failure c = FRotate /\ ix_ok 3 0 /\ 0 <> 3 - 1.
 Proof. vm_compute. repeat split; try reflexivity; try discriminate; try lia; right; discriminate. Qed.
 
 (* success after exactly retry failures; and one failure more: the last error *)
 Example budget_boundary :
-  let c := new (failtry_config 2 true) in
+  let c := new (failtry_config 2 true 0 0) in
   res (handle c 1 0 (mk_call None None [Err 1; Panic 2; Ok 3])) = RResp 3 /\
   res (handle c 1 0 (mk_call None None [Err 1; Panic 2; Panic 3; Ok 4])) = RPanicErr 3 /\
   attempts (handle c 1 0 (mk_call None None [Err 1; Panic 2; Panic 3; Ok 4])) = [0; 0; 0] /\
@@ -299,28 +319,28 @@ Proof. vm_compute. repeat split; reflexivity. Qed.
 
 (* per-call override: plugin says idempotent, the call says no -> one attempt *)
 Example override_not_idempotent :
-  let c := new (failover_config 3 true) in
+  let c := new (failover_config 3 true 0 0) in
   let cl := mk_call (Some false) None [Panic 1; Ok 2] in
   eff_idem c cl = false /\ attempts (handle c 2 0 cl) = [0] /\ res (handle c 2 0 cl) = RPanicErr 1.
 Proof. vm_compute. repeat split; reflexivity. Qed.
 
 (* negative Retry -> 10 in New; a per-call negative retry item -> no retry *)
 Example negative_retry :
-  retry (new (failtry_config (-1) true)) = 10 /\
-  nattempts (handle (new (failtry_config (-1) true)) 1 0 (mk_call None None [])) = 11%nat /\
-  nattempts (handle (new (failtry_config 3 true)) 1 0 (mk_call None (Some (-1)) [])) = 1%nat.
+  retry (new (failtry_config (-1) true 0 0)) = 10 /\
+  nattempts (handle (new (failtry_config (-1) true 0 0)) 1 0 (mk_call None None [])) = 11%nat /\
+  nattempts (handle (new (failtry_config 3 true 0 0)) 1 0 (mk_call None (Some (-1)) [])) = 1%nat.
 Proof. vm_compute. repeat split; reflexivity. Qed.
 
 (* failfast with the fields set to "retry": still once, OnFailure called once *)
 Example failfast_example :
   let c := new (failfast_config 3 true) in
   let o := handle c 2 0 (mk_call (Some true) (Some 5) [Err 1; Ok 2]) in
-  on_retry c = false /\ attempts o = [0] /\ res o = RErr 1 /\ nfail (fin o) = 1%nat.
+  has_retry c = false /\ attempts o = [0] /\ res o = RErr 1 /\ nfail (fin o) = 1%nat.
 Proof. vm_compute. repeat split; reflexivity. Qed.
 
 (* the guard of the partial theorem fails exactly in the witness situation *)
 Example failover_wrap_witness :
-  let c := new (failover_config 3 true) in
+  let c := new (failover_config 3 true 0 0) in
   map attempts (run_calls c 2 false 0 None
                   [mk_call None None [Err 1; Ok 2]; mk_call None None [Err 3; Ok 4]])
   = [[0; 1]; [0; 0]].
@@ -328,7 +348,7 @@ Proof. vm_compute. reflexivity. Qed.
 
 (* the crash exists: failover on a client without URLs *)
 Example failover_without_urls :
-  res (handle (new (failover_config 3 true)) 0 0 (mk_call None None [Err 1])) = RCrash.
+  res (handle (new (failover_config 3 true 0 0)) 0 0 (mk_call None None [Err 1])) = RCrash.
 Proof. vm_compute. reflexivity. Qed.
 
 (* forking: error, success, panic; completion order 2,0,1 -> server 1's response;
@@ -359,4 +379,19 @@ Example bcast_lts_example :
               b_err (sh s) = Some (RErr 12)
   | None => False
   end.
+Proof. vm_compute. repeat split; reflexivity. Qed.
+
+(* back-off above the cap with a budget beyond max/min: the counter still advances and the
+   budget still ends the call (min 10, max 25, retry 6: intervals 10 20 25 25 25 25) *)
+Example backoff_above_cap :
+  let c := new (failtry_config 6 true 10 25) in
+  let o := handle c 1 0 (mk_call None None []) in
+  nattempts o = 7%nat /\ retried (fin o) = 6 /\ rev (ivs (fin o)) = [10; 20; 25; 25; 25; 25] /\
+  cfg_core c = cfg_core (new (failtry_config 6 true 0 0)).
+Proof. vm_compute. repeat split; reflexivity. Qed.
+
+(* failover: negative while retried < len(urls), zero at it, then growing to the cap *)
+Example backoff_failover :
+  let o := handle (new (failover_config 5 true 10 15)) 2 0 (mk_call None None []) in
+  rev (ivs (fin o)) = [-10; 0; 10; 15; 15] /\ attempts o = [0; 1; 0; 1; 0; 1].
 Proof. vm_compute. repeat split; reflexivity. Qed.
